@@ -822,7 +822,7 @@ json gen_history() {
   c["jobs"] = jobs;
   {
     std::vector<int> fm;
-    bool withfail = rbool(35);
+    bool withfail = rbool(50);
     for (int i = 0; i < nj; ++i) fm.push_back(withfail && rbool(40) ? ri(1, 7) : 0);
     c["failmask"] = fm;
   }
@@ -877,7 +877,7 @@ void enum_crash(int level, const std::function<bool(const json &)> &emit) {
     c["hold_ms"] = 32000;
     if (!emit(c)) return;
   }
-  for (int variant = 0; variant < level; ++variant) {
+  for (int variant = 0; variant < level - 1; ++variant) {  // level 1 = the long holds only (quick tier)
     json c;
     json jobs = json::array();
     int nj = 2 + variant % 3;
